@@ -1322,6 +1322,337 @@ fn drive_advstr_huge(c: &mut Case, level: u8) -> Res {
 }
 
 // ---------------------------------------------------------------------------------------------
+// gap_ families: API variants of the same containers that the families above never call (unchecked / slice / iterator
+// accessors, alias methods, alternative constructors and presets, sync + reopen, batch variants). Oracles are the same models.
+// ---------------------------------------------------------------------------------------------
+/// FastVec<Tracked>; element access through get_unchecked / get_unchecked_mut (index always in range).
+pub struct FvGap(FastVec<Tracked>);
+impl VecSut for FvGap {
+    type E = Tracked; const KINDS: &'static [(K, u32)] = FV_KINDS; const NCFG: usize = 4;
+    fn create(cfg: usize, next: &mut u64) -> Result<(Self, Vec<u64>), Fail> { fv_create(cfg, next).map(|(v, m)| (FvGap(v), m)) }
+    fn apply(&mut self, op: &VOp, m: &mut Vec<u64>, next: &mut u64, c: &mut Case) -> Res {
+        match op.k {
+            K::Mutate => { if op.a < m.len() { let id = nid(next); unsafe { *self.0.get_unchecked_mut(op.a) = Tracked::mk(id); } m[op.a] = id; c.note("unchecked_mut", 1); } Ok(()) }
+            K::Probe => { for i in 0..m.len() { let t = unsafe { self.0.get_unchecked(i) }; if t.id != m[i] || !t.intact() { return Err(bad("content", format!("get_unchecked({i}) is {} want {}", t.id, m[i]))); } }
+                if m.len() >= 2 { let (i, j) = (0, m.len() - 1); let a = std::mem::replace(unsafe { self.0.get_unchecked_mut(i) }, Tracked::mk(0)); let b = std::mem::replace(unsafe { self.0.get_unchecked_mut(j) }, a); drop(std::mem::replace(unsafe { self.0.get_unchecked_mut(i) }, b)); m.swap(i, j); }
+                c.ev(m.len() as u64); Ok(()) }
+            _ => if fv_common(&mut self.0, op, m, next, c)? { Ok(()) } else { Err(bad("driver", format!("unsupported op {:?}", op.k))) },
+        }
+    }
+    fn snapshot(&self) -> Result<Vec<u64>, Fail> { snap_slice(self.0.as_slice()) }
+    fn sut_len(&self) -> usize { self.0.len() }
+    fn try_clone(&self) -> Result<Option<Self>, Fail> { Ok(fv_clone(&self.0)?.map(FvGap)) }
+}
+
+fn vv_gap_create<E: Elem>(cfg: usize) -> Result<(ValVec32<E>, Vec<u64>), Fail> {
+    let pool = must(zipora::memory::SecureMemoryPool::new(zipora::memory::SecurePoolConfig::small_secure()), "SecureMemoryPool::new")?;
+    let v = must(ValVec32::with_secure_pool([0u32, 1, 10, 100][cfg % 4], pool), "with_secure_pool")?;
+    Ok((v, vec![]))
+}
+fn vv_gap_probe<E: Elem>(v: &mut ValVec32<E>, m: &[u64]) -> Res {
+    if v.capacity_usize() != v.capacity() as usize || v.capacity_usize() < m.len() { return Err(bad("capacity", format!("capacity_usize {} capacity {} len {}", v.capacity_usize(), v.capacity(), m.len()))); }
+    let got: Vec<u64> = v.iter_mut().map(|t| t.id()).collect(); cmp_model("iter_mut", &got, m)?;
+    let got: Vec<u64> = v.as_mut_slice().iter().map(|t| t.id()).collect(); cmp_model("as_mut_slice", &got, m)
+}
+/// ValVec32<Tracked>: with_secure_pool constructor, unchecked_push when there is spare capacity, mutation through
+/// as_mut_slice / iter_mut (no `set`: see valvec32_set).
+pub struct VvGap(ValVec32<Tracked>);
+impl VecSut for VvGap {
+    type E = Tracked; const KINDS: &'static [(K, u32)] = VV_KINDS_NOSET; const NCFG: usize = 4;
+    fn create(cfg: usize, _next: &mut u64) -> Result<(Self, Vec<u64>), Fail> { vv_gap_create(cfg).map(|(v, m)| (VvGap(v), m)) }
+    fn apply(&mut self, op: &VOp, m: &mut Vec<u64>, next: &mut u64, c: &mut Case) -> Res {
+        let v = &mut self.0;
+        match op.k {
+            K::Push if v.len() < v.capacity() => { let id = nid(next); unsafe { v.unchecked_push(Tracked::mk(id)); } m.push(id); c.note("unchecked_push", 1); Ok(()) }
+            K::Mutate => { if op.a < m.len() { let id = nid(next); if op.a % 2 == 0 { v.as_mut_slice()[op.a] = Tracked::mk(id); } else { *v.iter_mut().nth(op.a).ok_or_else(|| bad("iter_mut", format!("iter_mut().nth({}) is None with len {}", op.a, m.len())))? = Tracked::mk(id); } m[op.a] = id; } Ok(()) }
+            K::Probe => { vv_gap_probe(v, m)?; if vv_common(v, op, m, next, c)? { Ok(()) } else { Err(bad("driver", "probe".into())) } }
+            _ => if vv_common(v, op, m, next, c)? { Ok(()) } else { Err(bad("driver", format!("unsupported op {:?}", op.k))) },
+        }
+    }
+    fn snapshot(&self) -> Result<Vec<u64>, Fail> { snap_slice(self.0.as_slice()) }
+    fn sut_len(&self) -> usize { self.0.len() as usize }
+    fn try_clone(&self) -> Result<Option<Self>, Fail> { Ok(vv_clone(&self.0)?.map(VvGap)) }
+}
+/// ValVec32<u64>: unchecked_push_copy, as_mut_slice / iter_mut.
+pub struct VvGapU64(ValVec32<u64>);
+impl VecSut for VvGapU64 {
+    type E = u64; const KINDS: &'static [(K, u32)] = VVC_KINDS; const NCFG: usize = 4;
+    fn create(cfg: usize, _next: &mut u64) -> Result<(Self, Vec<u64>), Fail> { vv_gap_create(cfg).map(|(v, m)| (VvGapU64(v), m)) }
+    fn apply(&mut self, op: &VOp, m: &mut Vec<u64>, next: &mut u64, c: &mut Case) -> Res {
+        let v = &mut self.0;
+        match op.k {
+            K::Push if v.len() < v.capacity() => { let id = nid(next); unsafe { v.unchecked_push_copy(u64::mk(id)); } m.push(u64::norm(id)); c.note("unchecked_push", 1); Ok(()) }
+            K::Mutate => { if op.a < m.len() { let id = nid(next); if op.a % 2 == 0 { v.as_mut_slice()[op.a] = u64::mk(id); } else { *v.iter_mut().nth(op.a).ok_or_else(|| bad("iter_mut", format!("iter_mut().nth({}) is None with len {}", op.a, m.len())))? = u64::mk(id); } m[op.a] = u64::norm(id); } Ok(()) }
+            K::Probe => { vv_gap_probe(v, m)?; <ValVec32<u64> as VecSut>::apply(v, op, m, next, c) }
+            _ => <ValVec32<u64> as VecSut>::apply(v, op, m, next, c),
+        }
+    }
+    fn snapshot(&self) -> Result<Vec<u64>, Fail> { snap_slice(self.0.as_slice()) }
+    fn sut_len(&self) -> usize { self.0.len() as usize }
+    fn try_clone(&self) -> Result<Option<Self>, Fail> { Ok(vv_clone(&self.0)?.map(VvGapU64)) }
+}
+/// CacheAlignedVec<Tracked>: mutation through as_mut_slice.
+pub struct CvGap(CacheAlignedVec<Tracked>);
+impl VecSut for CvGap {
+    type E = Tracked; const KINDS: &'static [(K, u32)] = CV_KINDS; const NCFG: usize = 3;
+    fn create(cfg: usize, next: &mut u64) -> Result<(Self, Vec<u64>), Fail> { <CacheAlignedVec<Tracked> as VecSut>::create(cfg, next).map(|(v, m)| (CvGap(v), m)) }
+    fn apply(&mut self, op: &VOp, m: &mut Vec<u64>, next: &mut u64, c: &mut Case) -> Res {
+        match op.k {
+            K::Mutate => { let s = self.0.as_mut_slice(); if s.len() != m.len() { return Err(bad("len", format!("as_mut_slice().len() {} want {}", s.len(), m.len()))); } if op.a < m.len() { let id = nid(next); s[op.a] = Tracked::mk(id); m[op.a] = id; if m.len() >= 2 { let l = m.len() - 1; s.swap(0, l); m.swap(0, l); } } Ok(()) }
+            _ => <CacheAlignedVec<Tracked> as VecSut>::apply(&mut self.0, op, m, next, c),
+        }
+    }
+    fn snapshot(&self) -> Result<Vec<u64>, Fail> { snap_slice(self.0.as_slice()) }
+    fn sut_len(&self) -> usize { self.0.len() }
+}
+
+/// AutoGrowCircularQueue through the alias methods push / pop (single steps and the expansion of bulk steps).
+fn drive_autoq_alias(c: &mut Case) -> Res {
+    mon::tracked_reset();
+    let cap0 = *c.rng.pick(autoq_caps()); let n = c.rng.urange(60, 320);
+    let mut steps: Vec<QStep> = vec![]; let (mut has_b, mut la, mut lb) = (false, 0usize, 0usize);
+    random_q_ops(&mut c.rng, n, 100, &mut steps, &mut has_b, &mut la, &mut lb, false);
+    c.input_str("cap0", &if cap0 == usize::MAX { "new".to_string() } else { cap0.to_string() }); c.input_str("ops", &encode_q(&steps)); c.set_nontrivial(steps.len() >= 8);
+    autoq_tag(c, cap0, &steps);
+    wrap_panic(catch(|| -> Res {
+        let mut q: AutoGrowCircularQueue<Tracked> = if cap0 == usize::MAX { AutoGrowCircularQueue::new() } else { AutoGrowCircularQueue::with_capacity(cap0) };
+        let mut m: VecDeque<u64> = VecDeque::new(); let mut next = 1u64;
+        let pop1 = |q: &mut AutoGrowCircularQueue<Tracked>, m: &mut VecDeque<u64>, c: &mut Case, i: usize| -> Res { let g = q.pop(); let w = m.pop_front(); match (&g, w) { (None, None) => { c.note("pop_empty", 1); Ok(()) } (Some(t), Some(w)) if t.id == w && t.intact() => Ok(()), _ => Err(bad("pop", format!("step {i}: pop {:?} want {w:?}", g.as_ref().map(|t| t.id)))) } };
+        for (i, st) in steps.iter().enumerate() {
+            match st.op {
+                Q::Push => { let id = nid(&mut next); must(q.push(Tracked::new(id)), "push")?; m.push_back(id); }
+                Q::Pop => pop1(&mut q, &mut m, c, i)?,
+                Q::PushBulk(k) => { if i % 2 == 0 { for _ in 0..k { let id = nid(&mut next); must(q.push(Tracked::new(id)), "push")?; m.push_back(id); } } else { let items: Vec<Tracked> = (0..k).map(|_| Tracked::new(nid(&mut next))).collect(); let n = must(q.push_bulk(&items), "push_bulk")?; if n != k { return Err(bad("push_bulk", format!("step {i}: push_bulk returned {n} want {k}"))); } m.extend(items.iter().map(|t| t.id)); } }
+                Q::PopBulk(k) => { for _ in 0..k.min(m.len() + 1) { pop1(&mut q, &mut m, c, i)?; } }
+                Q::Reserve(k) => { must(q.reserve(k), "reserve")?; }
+                Q::Clear => { q.clear(); m.clear(); }
+                Q::Deep | Q::Clone => { let mut cl = q.clone(); for (j, &w) in m.iter().enumerate() { match cl.pop() { Some(t) if t.id == w && t.intact() => {} o => return Err(bad("clone_content", format!("step {i}: clone element {j} is {:?} want {w}", o.map(|t| t.id)))) } } if cl.pop().is_some() { return Err(bad("clone_len", format!("step {i}: clone holds extra elements"))); } c.ev(m.len() as u64 + 1); }
+            }
+            if q.len() != m.len() || q.is_empty() != m.is_empty() { return Err(bad("len", format!("step {i} {:?}: len {} want {}", st.op, q.len(), m.len()))); }
+            if q.front().map(|t| t.id) != m.front().copied() || q.back().map(|t| t.id) != m.back().copied() { return Err(bad("front", format!("step {i} {:?}: front/back {:?}/{:?} want {:?}/{:?}", st.op, q.front().map(|t| t.id), q.back().map(|t| t.id), m.front(), m.back()))); }
+            live_check(m.len(), "after op").map_err(|f| bad(&f.oracle, format!("step {i} {:?}: {}", st.op, f.detail)))?; c.ev(4);
+        }
+        let keep = c.rng.usize_below(m.len() + 1);
+        while m.len() > keep { pop1(&mut q, &mut m, c, usize::MAX)?; c.ev(1); }
+        live_check(m.len(), "after partial drain")?; drop(q); live_check(0, "after dropping the queue")
+    }))
+}
+
+/// Several BumpVecs living in one arena together with raw alloc_bytes / alloc_slice blocks: every vector must keep its own
+/// sequence (mutation through as_mut_slice included), raw blocks keep their fill pattern (no overlap), and after all vectors are
+/// gone and the arena is reset() a new generation of vectors behaves the same.
+fn drive_bumpvec_arena(c: &mut Case) -> Res {
+    mon::tracked_reset();
+    let arena_sz = *c.rng.pick(&[512usize, 2048, 8192, 65536]); let n_ops = c.rng.urange(60, 320);
+    let ops: Vec<(u8, u16)> = (0..n_ops).map(|_| (c.rng.below(16) as u8, c.rng.below(1 << 16) as u16)).collect();
+    c.input_str("arena", &arena_sz.to_string()); c.input("ops", &ops.iter().flat_map(|o| [o.0, o.1 as u8, (o.1 >> 8) as u8]).collect::<Vec<u8>>()); c.set_nontrivial(true);
+    wrap_panic(catch(|| -> Res {
+        let arena = must(BumpAllocator::new(arena_sz), "BumpAllocator::new")?;
+        let mut next = 1u64;
+        for generation in 0..2 {
+            let mut ts: Vec<(BumpVec<Tracked>, Vec<u64>, usize)> = vec![]; let mut us: Vec<(BumpVec<u64>, Vec<u64>, usize)> = vec![];
+            let mut blocks: Vec<(*mut u8, usize, u8)> = vec![];
+            for (i, &(o, x)) in ops.iter().enumerate() {
+                let x = x as usize;
+                match o {
+                    0 => { let cap = 1 + x % 20; let pred = arena.can_allocate(cap * std::mem::size_of::<Tracked>(), std::mem::align_of::<Tracked>()); match BumpVec::<Tracked>::new_in(&arena, cap) { Ok(v) => { if v.capacity() != cap || !v.is_empty() { return Err(bad("ctor", format!("step {i}: new_in({cap}) has capacity {} len {}", v.capacity(), v.len()))); } if !pred { c.note("can_allocate_disagrees", 1); } ts.push((v, vec![], cap)); } Err(_) => { c.note("arena_full_refused", 1); if pred { c.note("can_allocate_disagrees", 1); } } } }
+                    1 => { let cap = 1 + x % 33; match BumpVec::<u64>::new_in(&arena, cap) { Ok(v) => us.push((v, vec![], cap)), Err(_) => { c.note("arena_full_refused", 1); } } }
+                    2 => { let size = 1 + x % 48; let align = 1usize << (x % 7); if let Ok(p) = arena.alloc_bytes(size, align) { if (p.as_ptr() as usize) % align != 0 { return Err(bad("alignment", format!("step {i}: alloc_bytes({size},{align}) returned a misaligned pointer"))); } let pat = 0x80 | (i as u8); unsafe { std::ptr::write_bytes(p.as_ptr(), pat, size); } blocks.push((p.as_ptr(), size, pat)); } else { c.note("arena_full_refused", 1); } }
+                    3 => { let k = 1 + x % 12; if let Ok(p) = arena.alloc_slice::<u32>(k) { let pat = 0x40 | (i as u8 & 0x3f); let raw = p.as_ptr() as *mut u8; if p.len() != k { return Err(bad("len", format!("step {i}: alloc_slice({k}) has len {}", p.len()))); } unsafe { std::ptr::write_bytes(raw, pat, k * 4); } blocks.push((raw, k * 4, pat)); } else { c.note("arena_full_refused", 1); } }
+                    4..=9 => { let id = nid(&mut next); if o % 2 == 0 { if !ts.is_empty() { let k = x % ts.len(); let (v, m, cap) = &mut ts[k]; let r = v.push(Tracked::new(id)); if m.len() < *cap { must(r, "push")?; m.push(id); } else { if r.is_ok() { return Err(bad("full_accepted", format!("step {i}: push accepted at len {} == capacity", m.len()))); } c.note("full_refused", 1); } } }
+                        else if !us.is_empty() { let k = x % us.len(); let (v, m, cap) = &mut us[k]; let r = v.push(u64::mk(id)); if m.len() < *cap { must(r, "push")?; m.push(u64::norm(id)); } else { if r.is_ok() { return Err(bad("full_accepted", format!("step {i}: push accepted at len {} == capacity", m.len()))); } c.note("full_refused", 1); } } }
+                    10 | 11 => { if o == 10 { if !ts.is_empty() { let k = x % ts.len(); let (v, m, _) = &mut ts[k]; let g = v.pop().map(|t| t.id); let w = m.pop(); if g != w { return Err(bad("pop", format!("step {i}: pop {g:?} want {w:?}"))); } if w.is_none() { c.note("pop_empty", 1); } } }
+                        else if !us.is_empty() { let k = x % us.len(); let (v, m, _) = &mut us[k]; let g = v.pop(); let w = m.pop(); if g != w { return Err(bad("pop", format!("step {i}: pop {g:?} want {w:?}"))); } if w.is_none() { c.note("pop_empty", 1); } } }
+                    12 | 13 => { let id = nid(&mut next); if o == 12 { if !ts.is_empty() { let k = x % ts.len(); let (v, m, _) = &mut ts[k]; let s = v.as_mut_slice(); if s.len() != m.len() { return Err(bad("len", format!("step {i}: as_mut_slice().len() {} want {}", s.len(), m.len()))); } if !m.is_empty() { let j = (x / 7) % m.len(); s[j] = Tracked::new(id); m[j] = id; let l = m.len() - 1; s.swap(0, l); m.swap(0, l); c.note("as_mut_slice_writes", 1); } } }
+                        else if !us.is_empty() { let k = x % us.len(); let (v, m, _) = &mut us[k]; let s = v.as_mut_slice(); if s.len() != m.len() { return Err(bad("len", format!("step {i}: as_mut_slice().len() {} want {}", s.len(), m.len()))); } if !m.is_empty() { let j = (x / 7) % m.len(); s[j] = u64::mk(id); m[j] = u64::norm(id); s.reverse(); m.reverse(); c.note("as_mut_slice_writes", 1); } } }
+                    14 => { if !ts.is_empty() && x % 3 == 0 { let k = x % ts.len(); ts.remove(k); } }
+                    _ => { if !us.is_empty() && x % 3 == 0 { let k = x % us.len(); us.remove(k); } }
+                }
+                let mut held = 0;
+                for (k, (v, m, cap)) in ts.iter().enumerate() { cmp_model(&format!("step {i}: tracked vec {k}"), &snap_slice(v.as_slice())?, m)?; if v.len() != m.len() || v.capacity() != *cap || v.is_empty() != m.is_empty() { return Err(bad("len", format!("step {i}: len/capacity of tracked vec {k}"))); } held += m.len(); }
+                for (k, (v, m, cap)) in us.iter().enumerate() { cmp_model(&format!("step {i}: u64 vec {k}"), v.as_slice(), m)?; if v.len() != m.len() || v.capacity() != *cap { return Err(bad("len", format!("step {i}: len/capacity of u64 vec {k}"))); } }
+                for &(p, n, pat) in &blocks { let s = unsafe { std::slice::from_raw_parts(p, n) }; if s.iter().any(|&b| b != pat) { return Err(bad("arena_overlap", format!("step {i}: a raw block of {n} bytes allocated from the same arena was overwritten by vector operations"))); } }
+                live_check(held, "after op").map_err(|f| bad(&f.oracle, format!("step {i} (generation {generation}): {}", f.detail)))?; c.ev(held as u64 + 2);
+            }
+            let held: usize = ts.iter().map(|t| t.1.len()).sum();
+            if !ts.is_empty() { let (_, m, _) = ts.remove(0); live_check(held - m.len(), "after dropping one vector")?; }
+            ts.clear(); us.clear(); blocks.clear(); live_check(0, "after dropping all vectors")?;
+            // no outstanding allocation is used any more: reset() and run the same history on the recycled arena
+            unsafe { arena.reset(); }
+            if arena.remaining_bytes() != arena.capacity() || arena.allocated_bytes() != 0 { c.note("reset_counters_off", 1); }
+        }
+        Ok(())
+    }))
+}
+
+/// MmapVec: configuration presets and builder switches; sync() + open() must give back the element sequence, histories
+/// continue on the reopened vector; finally a read-only open (refused mutations leave the content alone).
+fn mmap_gap_config(k: usize) -> MmapVecConfig {
+    match k % 9 { 0 => MmapVecConfig::memory_optimized(), 1 => MmapVecConfig::performance_optimized(), 2 => MmapVecConfig::realtime(), 3 => MmapVecConfig::persistent_cache(), 4 => MmapVecConfig::large_dataset(),
+        5 => MmapVecConfig::builder().with_initial_capacity(3).with_populate_pages(true).with_huge_pages(false).build(), 6 => MmapVecConfig::builder().with_initial_capacity(0).with_huge_pages(true).with_growth_factor(1.3).build(),
+        7 => MmapVecConfig::builder().with_initial_capacity(7).with_read_only(false).with_populate_pages(false).build(), _ => MmapVecConfig::default() }
+}
+fn drive_mmap_reopen<T: Elem + Copy>(c: &mut Case, idx: u64) -> Res {
+    let k0 = idx as usize % 9; let phases = c.rng.urange(2, 4);
+    let heavy = k0 == 3 || k0 == 4; // sync_on_write / 1M-element files: short histories
+    let plan: Vec<(usize, Vec<(u8, usize)>)> = (0..phases).map(|_| { let k = if c.rng.bool() { k0 } else { c.rng.usize_below(9) }; let k = if k == 4 && k0 != 4 { 0 } else { k }; let n = if heavy { c.rng.urange(5, 14) } else { c.rng.urange(10, 50) }; (k, (0..n).map(|_| (c.rng.below(12) as u8, c.rng.usize_below(64))).collect()) }).collect();
+    c.input_str("preset", &k0.to_string()); c.input_str("plan", &format!("{plan:?}")); c.set_nontrivial(true);
+    wrap_panic(catch(|| -> Res {
+        let dir = tempfile::tempdir().map_err(|e| bad("__inconclusive", format!("tempdir: {e}")))?; let path = dir.path().join("r.mv");
+        let mut v = match MmapVec::<T>::create(&path, mmap_gap_config(k0)) { Ok(v) => v, Err(_) => { c.note("create_refused", 1); return Ok(()); } };
+        let mut m: Vec<u64> = vec![]; let mut next = 1u64;
+        for (ph, (k, ops)) in plan.iter().enumerate() {
+            if ph > 0 {
+                must(v.sync(), "sync")?; drop(v);
+                v = must(MmapVec::<T>::open(&path, mmap_gap_config(*k)), "MmapVec::open (after sync)")?;
+                if v.path() != path.as_path() { return Err(bad("path", "path() differs from the path given to open".into())); }
+                cmp_model("reopened", &snap_slice(v.as_slice())?, &m).map_err(|f| bad(&format!("reopen_{}", f.oracle), format!("phase {ph} preset {k}: {}", f.detail)))?;
+                if v.len() != m.len() || v.capacity() < m.len() { return Err(bad("reopen_len", format!("phase {ph}: len {} capacity {} want len {}", v.len(), v.capacity(), m.len()))); }
+                c.note("reopens", 1); c.ev(m.len() as u64 + 1);
+            }
+            for (i, &(o, x)) in ops.iter().enumerate() {
+                let ctxs = |f: Fail| Fail { oracle: f.oracle, detail: format!("phase {ph} step {i} op {o}({x}): {}", f.detail) };
+                match o {
+                    0..=3 => { let id = nid(&mut next); must(v.push(T::mk(id)), "push").map_err(ctxs)?; m.push(T::norm(id)); }
+                    4 => { let g = v.pop().map(|t| t.id()); let w = m.pop(); if g != w { return Err(ctxs(bad("pop", format!("pop {g:?} want {w:?}")))); } }
+                    5 => { let items: Vec<T> = fresh(x % 40, &mut next, Some(&mut m)); must(v.extend(items.into_iter()), "extend").map_err(ctxs)?; }
+                    6 => { let n = x % (m.len() + 3); must(v.truncate(n), "truncate").map_err(ctxs)?; m.truncate(n); }
+                    7 => { let s = v.as_mut_slice(); if s.len() != m.len() { return Err(ctxs(bad("len", format!("as_mut_slice().len() {} want {}", s.len(), m.len())))); } if !m.is_empty() { let j = x % m.len(); let id = nid(&mut next); s[j] = T::mk(id); m[j] = T::norm(id); s.reverse(); m.reverse(); } }
+                    8 => { let id = nid(&mut next); let n = if heavy { x % 40 } else { x * 3 }; must(v.resize(n, T::mk(id)), "resize").map_err(ctxs)?; m.resize(n, T::norm(id)); }
+                    9 => { must(v.reserve(x), "reserve").map_err(ctxs)?; if v.capacity() < m.len() + x { return Err(ctxs(bad("capacity", format!("capacity {} after reserve({x}) len {}", v.capacity(), m.len())))); } }
+                    10 => { must(v.shrink_to_fit(), "shrink_to_fit").map_err(ctxs)?; }
+                    _ => { let src: Vec<T> = fresh(x % 30, &mut next, Some(&mut m)); must(v.push_bulk_simd(&src), "push_bulk_simd").map_err(ctxs)?; }
+                }
+                cmp_model("content", &snap_slice(v.as_slice())?, &m).map_err(ctxs)?; if v.len() != m.len() || v.is_empty() != m.is_empty() { return Err(ctxs(bad("len", format!("len {} want {}", v.len(), m.len())))); } c.ev(m.len() as u64 + 1);
+            }
+        }
+        must(v.sync(), "sync")?; drop(v);
+        let ro = if c.rng.bool() { MmapVecConfig::read_only() } else { MmapVecConfig::builder().with_read_only(true).build() };
+        let mut v = must(MmapVec::<T>::open(&path, ro), "MmapVec::open read-only (after sync)")?;
+        cmp_model("read-only reopened", &snap_slice(v.as_slice())?, &m).map_err(|f| bad(&format!("reopen_{}", f.oracle), f.detail))?;
+        for i in 0..m.len().min(50) { if v.get(i).map(|t| t.id()) != Some(m[i]) { return Err(bad("get", format!("read-only get({i})"))); } } if v.get(m.len()).is_some() { return Err(bad("oob_accepted", "read-only get(len)".into())); }
+        // mutation attempts on a read-only vector: whatever is accepted must follow the model, whatever is refused must leave the content alone
+        if v.push(T::mk(9_999_999)).is_ok() { m.push(T::norm(9_999_999)); c.note("ro_mutation_accepted", 1); } else { c.note("ro_mutation_refused", 1); }
+        if let Some(t) = v.pop() { if Some(t.id()) != m.pop() { return Err(bad("pop", "read-only pop returned a value that is not the last element".into())); } c.note("ro_mutation_accepted", 1); } else { c.note("ro_mutation_refused", 1); }
+        if v.clear().is_ok() { m.clear(); c.note("ro_mutation_accepted", 1); } else { c.note("ro_mutation_refused", 1); }
+        if v.truncate(m.len() / 2).is_ok() { m.truncate(m.len() / 2); c.note("ro_mutation_accepted", 1); } else { c.note("ro_mutation_refused", 1); }
+        if v.get_mut(0).is_some() { c.note("ro_mutation_accepted", 1); }
+        cmp_model("read-only after mutation attempts", &snap_slice(v.as_slice())?, &m)?; if v.len() != m.len() { return Err(bad("len", format!("read-only len {} want {}", v.len(), m.len()))); }
+        c.ev(m.len() as u64 + 60); Ok(())
+    }))
+}
+
+/// ZoSortedStrVec persistence API: save_to_file / from_mmap. A refusal (Err) is held; an accepted save must load back equal.
+fn drive_zosorted_save_load(c: &mut Case) -> Res {
+    let n = c.rng.urange(0, 60); let ss = gen_strings(&mut c.rng, n, 24, false); record_strings(c, &ss); c.set_nontrivial(n >= 2);
+    wrap_panic(catch(|| -> Res {
+        let mut m = ss.clone(); m.sort(); m.dedup();
+        let v = must(ZoSortedStrVec::from_strings(ss.clone()), "from_strings")?;
+        let dir = tempfile::tempdir().map_err(|e| bad("__inconclusive", format!("tempdir: {e}")))?; let path = dir.path().join("z.bin");
+        match v.save_to_file(&path) {
+            Err(_) => { c.note("save_refused", 1); }
+            Ok(()) => { let f = std::fs::File::open(&path).map_err(|e| bad("save_no_file", format!("save_to_file returned Ok but the file cannot be opened: {e}")))?;
+                let l = must(ZoSortedStrVec::from_mmap(f), "from_mmap of a file written by save_to_file")?;
+                if l.len() != m.len() { return Err(bad("load_len", format!("loaded len {} want {}", l.len(), m.len()))); } for i in 0..m.len() { opt_eq("loaded get", i, l.get(i), Some(&m[i]))?; } c.note("save_load_roundtrips", 1); c.ev(m.len() as u64); }
+        }
+        // a file that was not written by save_to_file: Err or a usable vector, never a panic
+        std::fs::write(&path, c.rng.bytes(n * 3)).map_err(|e| bad("__inconclusive", format!("write: {e}")))?;
+        if let Ok(f) = std::fs::File::open(&path) { match ZoSortedStrVec::from_mmap(f) { Err(_) => { c.note("load_refused", 1); } Ok(l) => { for i in 0..l.len().min(100) { let _ = l.get(i); } c.note("load_garbage_accepted", 1); } } }
+        // the vector itself is unaffected by the save attempt
+        if v.len() != m.len() { return Err(bad("len", format!("len {} want {}", v.len(), m.len()))); } for i in 0..m.len() { opt_eq("get", i, v.get(i), Some(&m[i]))?; } c.ev(m.len() as u64 + 1);
+        Ok(())
+    }))
+}
+
+/// BitPackedStringVec: extend(iter) == the sequence of single pushes (returned ids included), is_empty, the large_dataset preset.
+trait StrExtend: StrPushGet { fn sextend(&mut self, ss: &[String]) -> Result<Vec<usize>, String>; fn sempty(&self) -> bool; }
+impl StrExtend for BitPackedStringVec32 { fn sextend(&mut self, ss: &[String]) -> Result<Vec<usize>, String> { self.extend(ss.iter()).map_err(|e| e.to_string()) } fn sempty(&self) -> bool { self.is_empty() } }
+impl StrExtend for BitPackedStringVec64 { fn sextend(&mut self, ss: &[String]) -> Result<Vec<usize>, String> { self.extend(ss.iter()).map_err(|e| e.to_string()) } fn sempty(&self) -> bool { self.is_empty() } }
+fn drive_bitpacked_extend<V: StrExtend + Clone>(c: &mut Case, mk: fn(usize) -> V) -> Res {
+    let n = c.rng.urange(0, 120); let ml = *c.rng.pick(&[4usize, 16, 40, 300]); let ss = gen_strings(&mut c.rng, n, ml, true);
+    let ctor = c.rng.usize_below(3); let cuts: Vec<usize> = { let mut v: Vec<usize> = (0..c.rng.urange(1, 5)).map(|_| c.rng.usize_below(n + 1)).collect(); v.push(0); v.push(n); v.sort(); v };
+    record_strings(c, &ss); c.input_str("ctor", &ctor.to_string()); c.input_str("cuts", &format!("{cuts:?}")); c.set_nontrivial(n >= 2);
+    wrap_panic(catch(|| -> Res {
+        let mut a = mk(ctor); let mut b = mk(ctor);
+        if !a.sempty() || a.slen() != 0 { return Err(bad("len", "a new vector is not empty".into())); }
+        for w in cuts.windows(2) {
+            let chunk = &ss[w[0]..w[1]]; let before = a.slen();
+            let ids = a.sextend(chunk).map_err(|e| bad("op_err", format!("extend: {e}")))?;
+            let want: Vec<usize> = (before..before + chunk.len()).collect(); if ids != want { return Err(bad("extend_ids", format!("extend of {} strings at len {before} returned {:?}..", chunk.len(), ids.iter().take(5).collect::<Vec<_>>()))); }
+            for s in chunk { b.spush(s).map_err(|e| bad("op_err", format!("push: {e}")))?; }
+            if a.slen() != b.slen() || a.slen() != w[1] || a.sempty() != (w[1] == 0) { return Err(bad("len", format!("len after extend {} / after pushes {} want {}", a.slen(), b.slen(), w[1]))); }
+        }
+        for i in 0..n { opt_eq("get", i, a.sget(i), Some(&ss[i]))?; if a.sget_bytes(i) != b.sget_bytes(i) { return Err(bad("extend_vs_push", format!("get_bytes({i}) differs between extend and push"))); } }
+        opt_eq("get", n, a.sget(n), None)?; if a.siter() != ss.iter().map(|s| s.as_str()).collect::<Vec<_>>() { return Err(bad("iter", "iter() after extend differs".into())); }
+        let mut cl = a.clone(); let ids = cl.sextend(&ss[..n.min(3)]).map_err(|e| bad("op_err", format!("extend: {e}")))?; if ids != (n..n + n.min(3)).collect::<Vec<_>>() || a.slen() != n { return Err(bad("clone_content", "extend on a clone".into())); }
+        for s in ss.iter().take(10) { let w = ss.iter().position(|x| x == s); if a.sfind(s) != w { return Err(bad("find", format!("find_simd = {:?} want {w:?}", a.sfind(s)))); } }
+        c.ev(3 * n as u64 + 12); Ok(())
+    }))
+}
+
+/// AdvancedStringVec::new / with_capacity (default configuration: level 1, handle store with exact-duplicate sharing).
+fn drive_advstr_ctor(c: &mut Case) -> Res {
+    let n = c.rng.urange(5, 200); let ml = *c.rng.pick(&[6usize, 16, 40, 300]); let ss = gen_strings(&mut c.rng, n, ml, true);
+    let ctor = c.rng.usize_below(4); let cap = *c.rng.pick(&[0usize, 1, 7, 1000]); record_strings(c, &ss); c.input_str("ctor", &format!("{ctor},{cap}")); c.set_nontrivial(n >= 2);
+    wrap_panic(catch(|| -> Res {
+        let mut v = if ctor == 0 { AdvancedStringVec::new() } else { AdvancedStringVec::with_capacity(cap) };
+        let mut r = AdvancedStringVec::with_config(AdvancedStringConfig::default());
+        if !v.is_empty() || v.len() != 0 || v.get(0).is_some() { return Err(bad("len", "a new vector is not empty".into())); }
+        let mut m: Vec<&str> = vec![];
+        for (i, s) in ss.iter().enumerate() {
+            let id = must(v.push(s), "push")?; let idr = must(r.push(s), "push")?;
+            if id != idr { return Err(bad("ctor_vs_with_config", format!("push {i} returned handle {id}, the same push on with_config(default()) returned {idr}"))); }
+            if id == m.len() { m.push(s); } else if id < m.len() { if m[id] != s.as_str() { return Err(bad("dedup_wrong", format!("push returned handle {id} which holds a different string"))); } c.note("dedup_hits", 1); } else { return Err(bad("push_id", format!("push returned handle {id} > len {}", m.len()))); }
+            opt_eq("get", id, v.get(id), Some(s.as_str())).map_err(|f| bad("get_after_push", f.detail))?;
+        }
+        if v.len() != m.len() { return Err(bad("len", format!("len {} want {} handles", v.len(), m.len()))); }
+        for j in 0..m.len() { opt_eq("get", j, v.get(j), Some(m[j]))?; if v.get_bytes(j) != Some(m[j].as_bytes()) { return Err(bad("content", format!("get_bytes({j})"))); } } opt_eq("get", m.len(), v.get(m.len()), None)?;
+        let itv: Vec<&str> = v.iter().collect(); if itv != m { return Err(bad("iter", "iter() differs".into())); }
+        let cl = v.clone(); for j in 0..m.len() { opt_eq("get", j, cl.get(j), Some(m[j])).map_err(|f| bad("clone_content", f.detail))?; }
+        c.ev(4 * m.len() as u64 + n as u64); Ok(())
+    }))
+}
+
+/// FixedLenStrVec searches with long needles / prefixes (>= 16 / >= 8 bytes: the vectorised paths), strings sharing long prefixes.
+fn drive_fixedlen_long<const N: usize>(c: &mut Case) -> Res {
+    let n = c.rng.urange(5, 160);
+    let stems: Vec<String> = (0..c.rng.urange(1, 4)).map(|_| { let l = c.rng.urange(6, N.min(40)); (0..l).map(|_| (b'a' + c.rng.below(3) as u8) as char).collect() }).collect();
+    let ss: Vec<String> = (0..n).map(|_| { if c.rng.chance(1, 6) { return gen_strings(&mut c.rng, 1, N, false).pop().unwrap(); } let mut s = c.rng.pick(&stems).clone(); let cut = c.rng.usize_below(s.len() + 1); if c.rng.chance(1, 4) { s.truncate(cut); } let extra = c.rng.usize_below(N.saturating_sub(s.len()).min(30) + 1); for _ in 0..extra { s.push((b'a' + c.rng.below(2) as u8) as char); } s }).collect();
+    record_strings(c, &ss); c.set_nontrivial(true);
+    wrap_panic(catch(|| -> Res {
+        let mut v: FixedLenStrVec<N> = FixedLenStrVec::new(); let mut m: Vec<&str> = vec![];
+        for s in &ss { let r = v.push(s); if s.len() <= N && s.len() <= 255 { must(r, "push")?; m.push(s); } else if r.is_ok() { return Err(bad("oversize_accepted", format!("push of {} bytes accepted by FixedLenStrVec<{N}>", s.len()))); } }
+        let mut needles: Vec<String> = m.iter().take(40).map(|s| s.to_string()).collect();
+        for s in m.iter().take(12) { if s.len() > 1 { let mut t = s.to_string(); t.pop(); t.push('#'); needles.push(t); let mut u = s.to_string(); u.insert(0, 'Q'); let mut l = s.len(); while !u.is_char_boundary(l) { l -= 1; } u.truncate(l); needles.push(u); } }   // same length, last / first byte differs
+        for st in &stems { needles.push(st.clone()); }
+        let (mut long_f, mut long_p) = (0u64, 0u64);
+        for nd in &needles {
+            let w = m.iter().position(|x| *x == nd.as_str()); let g = v.find_exact(nd); if g != w { return Err(bad("find_exact", format!("find_exact({nd:?}) = {g:?} want {w:?}"))); } if nd.len() >= 16 { long_f += 1; }
+            for pl in [nd.len(), 8, 9, 15, 16, 17, 31, 32, 33, nd.len().saturating_sub(1)] { if pl > nd.len() { continue; } let mut pl = pl; while !nd.is_char_boundary(pl) { pl -= 1; } let pre = &nd[..pl]; let wc = m.iter().filter(|x| x.starts_with(pre)).count(); let gc = v.count_prefix(pre); if gc != wc { return Err(bad("count_prefix", format!("count_prefix({pre:?}) = {gc} want {wc}"))); } if pl >= 8 { long_p += 1; } c.ev(1); }
+            c.ev(1);
+        }
+        c.note("long_needles", long_f); c.note("long_prefixes", long_p); Ok(())
+    }))
+}
+
+fn gap_cases(ctx: &mut Ctx) {
+    let gn = ctx.n(100, 1500) as u64;
+    macro_rules! gap_vec { ($name:expr, $t:ty, $n:expr) => { for &fam in &[Fam::Mixed, Fam::Growth, Fam::Shrink, Fam::CloneDiv] { for idx in 0..$n { ctx.case($name, &format!("gap_{}", fam_name(fam)), idx, |c| drive_vec::<$t>(c, fam)); } } } }
+    gap_vec!("fastvec", FvGap, gn); gap_vec!("valvec32", VvGap, gn); gap_vec!("valvec32_u64", VvGapU64, gn); gap_vec!("cachevec", CvGap, gn / 2);
+    for idx in 0..gn * 3 { ctx.case("autoq", "gap_alias", idx, |c| drive_autoq_alias(c)); }
+    for idx in 0..gn * 3 { ctx.case("bumpvec", "gap_arena", idx, |c| drive_bumpvec_arena(c)); }
+    for idx in 0..ctx.n(18, 270) as u64 { ctx.case("mmapvec_u64", "gap_reopen", idx, |c| drive_mmap_reopen::<u64>(c, idx)); ctx.case("mmapvec_u8", "gap_reopen", idx, |c| drive_mmap_reopen::<u8>(c, idx)); }
+    for idx in 0..ctx.n(8, 40) as u64 { ctx.case("zosorted", "gap_save_load", idx, |c| drive_zosorted_save_load(c)); }
+    for idx in 0..gn * 2 {
+        ctx.case("bitpacked32", "gap_extend", idx, |c| drive_bitpacked_extend::<BitPackedStringVec32>(c, |k| match k { 0 => BitPackedStringVec32::new(), 1 => BitPackedStringVec32::with_config(zipora::containers::specialized::BitPackedConfig::large_dataset()), _ => BitPackedStringVec32::with_capacity(1) }));
+        ctx.case("bitpacked64", "gap_extend", idx, |c| drive_bitpacked_extend::<BitPackedStringVec64>(c, |k| match k { 0 => BitPackedStringVec64::new(), 1 => BitPackedStringVec64::with_config(zipora::containers::specialized::BitPackedConfig::large_dataset()), _ => BitPackedStringVec64::with_capacity(1) }));
+        ctx.case("advstr_l1", "gap_ctor", idx, |c| drive_advstr_ctor(c));
+        ctx.case("fixedlen_n64", "gap_long_needles", idx, |c| drive_fixedlen_long::<64>(c)); ctx.case("fixedlen_n300", "gap_long_needles", idx, |c| drive_fixedlen_long::<300>(c));
+    }
+    for idx in 0..gn { ctx.case("fixedlen_n16", "gap_long_needles", idx, |c| drive_fixedlen_long::<16>(c)); }
+}
+
+// ---------------------------------------------------------------------------------------------
 pub fn run(ctx: &mut Ctx) {
     let per = ctx.n(120, 2800) as u64;           // histories per (target, family)
     let micro = ctx.n(16, 64) as u64;
@@ -1389,6 +1720,9 @@ pub fn run(ctx: &mut Ctx) {
         ctx.case("fixedlen_n300", "huge_arena_limit", idx, |c| drive_fixedlen_huge::<300>(c, true));
         for lv in 0..4u8 { ctx.case(&format!("advstr_l{lv}"), "huge_count", idx, |c| drive_advstr_huge(c, lv)); }
     }
+
+    // gap_ families (API variants)
+    gap_cases(ctx);
 
     // process-killing probes last (a death is reported by the orchestrator as an unfinished case)
     for idx in 0..10 { ctx.case("mmapvec_u64", "simd_ctor", idx, |c| drive_mmap_simd_ctor(c, idx)); }
